@@ -199,6 +199,43 @@ pub fn judge(c: &Case, cx: &mut Cx) -> Verdict {
         }
         let _ = first;
     }
+    // A look-up is a function of (file, timestamp) only: the same questions asked again in another
+    // order (outside-in, so consecutive questions jump across the whole table), interleaved with
+    // look-ups on an unrelated fixed-offset zone parsed in between, give the same answers.
+    {
+        let judged: Vec<(i64, i32)> = c
+            .ts
+            .iter()
+            .filter(|t| (super::c03::MIN_TS + 172_800..super::c03::MAX_TS - 172_800).contains(*t))
+            .filter_map(|&t| tzf.offset_at(t).map(|w| (t, w)))
+            .collect();
+        let n = judged.len();
+        if n >= 2 {
+            cx.label("asked_again_in_another_order");
+            let other = catch(|| Tz::parse(&other_zone_bytes()));
+            let other = match other {
+                Ok(Ok(o)) => Some(o),
+                _ => None,
+            };
+            for k in 0..n {
+                let i = if k % 2 == 0 { k / 2 } else { n - 1 - k / 2 };
+                let (t, want) = judged[i];
+                cx.extra_evals += 1;
+                if let Some(o) = &other {
+                    match catch(|| o.offset_at(t)) {
+                        Ok(4_500) => {}
+                        Ok(g) => return fail("c18.wrong_offset", format!("fixed zone <+0115>-1:15 looked up at {} between look-ups on {} = 4500", t, name), format!("{}", g)),
+                        Err(p) => return fail("c18.lookup_panic", format!("fixed zone <+0115>-1:15 at {} returns", t), p.short()),
+                    }
+                }
+                match catch(|| parsed.offset_at(t)) {
+                    Ok(g) if g == want => {}
+                    Ok(g) => return fail("c18.answer_depends_on_call_order", format!("{}: offset at {} asked again (after other look-ups) = {}", name, t, want), format!("{}", g)),
+                    Err(p) => return fail("c18.lookup_panic", format!("{}: offset at {} (second time) = {}", name, t, want), p.short()),
+                }
+            }
+        }
+    }
     // end to end: what Offset::Local applies "now"
     if c.resolve {
         cx.nt("through_Offset::Local.resolve()");
@@ -237,6 +274,11 @@ pub fn judge(c: &Case, cx: &mut Cx) -> Verdict {
         }
     }
     Verdict::Pass
+}
+
+/// a minimal version-2 file without transitions: one type, footer `<+0115>-1:15`
+fn other_zone_bytes() -> Vec<u8> {
+    Synth { version: 2, types: vec![(4_500, false)], transitions: vec![], v1_populated: false, footer: Some("<+0115>-1:15".into()), indicators: false, leaps: 0 }.build()
 }
 
 pub struct Lookup;
